@@ -152,8 +152,15 @@ def build(c, spec, prev=None):
                                        random.Random(rng.getrandbits(32)))
             out["hostile"] = "early-tail:" + part
         else:
-            out["sign_policy"]["late"] = {part: rng.randint(1, 3)}
+            out["sign_policy"]["late"] = {part: rng.choice([1, 2, 3, 4, 5, 8, 20])}
             out["hostile"] = "late:" + part
+    out["exchange_fault"] = None
+    if form != "hash" and out["hostile"] is None and rng.random() < 0.06:
+        # one exchange of the dialogue fails (error status in the device's range, or no
+        # answer within the time-out): the request must not be reported as signed, and the
+        # next request on this manager must be relayed as if nothing had happened before
+        out["exchange_fault"] = (rng.randint(1, 14),
+                                 rng.choice(["sw:6a87", "sw:6a88", "sw:6b0c", "timeout"]))
     shape = rng.choice(["normal", "normal", "short", "long", "x31", "rubbish", "min", "zero_r",
                         "bad"])
     if shape == "bad":
@@ -296,6 +303,13 @@ def monitor(acc, c, b, dev, nrec_before, mark, bus, reply, exc):
                     return bad("proof-differs", got=p.hex()[:200], want=exp["proof"].hex()[:200])
         else:
             consumed_all = False
+        if rec["stopped_early"] is None and not rec["success"] and \
+                [p for p in ("tx", "receipt", "proof") if p not in st]:
+            # the device never stopped asking and never refused anything: a part it was
+            # not given was dropped by the manager
+            return bad("part-never-delivered-to-a-willing-device",
+                       missing=[p for p in ("tx", "receipt", "proof") if p not in st],
+                       late=b["sign_policy"].get("late"), reply=reply)
         chunks = sum(len(s.chunks) for s in st.values())
         if chunks >= 4 and len(st) >= 2:
             acc.count("nontrivial_auth")
@@ -358,7 +372,28 @@ def run_case(acc, c, spec, stacks):
     dev.signatures = iter([b["sig"]] * 3)
     nrec = len(dev.sign_records)
     mark = len(s.bus.events)
+    if b.get("exchange_fault"):
+        from ..simdev.transport import Fault
+        k, what = b["exchange_fault"]
+        if what == "timeout" and plat != "ledger":
+            what = "sw:6a87"    # (socket failures are not classified by the dongle layer)
+        s.bus.arm({k: Fault("timeout") if what == "timeout" else
+                   Fault("sw", sw=int(what[3:], 16))})
     reply, exc, out = s.request(b["req"])
+    if b.get("exchange_fault"):
+        s.bus.arm({})
+        fired = any(e.get("fault") for e in s.bus.events[mark:])
+        if fired:
+            acc.evaluations += 1
+            acc.count("dialogues_with_a_failed_exchange")
+            if exc is not None or not isinstance(reply, dict) or \
+                    type(reply.get("errorcode")) is not int or reply.get("errorcode") == 0:
+                acc.violation("signed-although-an-exchange-failed",
+                              {"reply": reply, "exc": repr(exc), "fault": b["exchange_fault"]},
+                              {"case": c})
+            dev.reset_sign()
+            stacks[("prev", key)] = (c, b)
+            return
     acc.evaluations += 1
     if c["v1"]:
         acc.count("v1_cases")
